@@ -639,7 +639,23 @@ void JitCompilerA64::h_ISUB_R(Instruction& instr, uint32_t& codePos)
 	}
 	else
 	{
-		emitAddImmediate(dst, dst, -instr.getImm32(), code, k);
+		const uint32_t imm = instr.getImm32();
+		const uint32_t neg = 0 - imm;
+
+		if (neg < (1 << 24))
+		{
+			emitAddImmediate(dst, dst, neg, code, k);
+		}
+		else
+		{
+			// sign-extend imm32 into a temporary register and subtract it
+			// (adding the negated 32-bit immediate is wrong for 0x80000000, which has no 32-bit negative)
+			constexpr uint32_t tmp_reg = 20;
+			emitMovImmediate(tmp_reg, imm, code, k);
+
+			// sub dst, dst, tmp_reg
+			emit32(ARMV8A::SUB | dst | (dst << 5) | (tmp_reg << 16), code, k);
+		}
 	}
 
 	reg_changed_offset[instr.dst] = k;
